@@ -221,7 +221,7 @@ Theorem tensor_train_exact X rank cores :
   forall idx, inb (shape X) idx -> tt_entry Op cores idx = gg X idx.
 Proof.
   unfold tt_ok, tensor_train, tt_entry. destruct (validate_tt_rank (ndim X) rank) as [rk|]; [|discriminate].
-  simpl rbind. intros Hok Hrun idx Hidx.
+  simpl rbind. intros Hok Hrun idx Hidx. destruct (ndim X <=? 1); [discriminate|].
   rewrite (chain_loop_exact _ _ _ _ _ _ _ Hok Hrun 0 idx 0) by (auto with arith).
   unfold g, get. f_equal. lia.
 Qed.
